@@ -280,7 +280,7 @@ def check_parse(ctx, rng, kind, ver, name, cls, w):
 
 
 WORKLOADS = [
-    Workload("history", wl_history, quick=120, thorough=3000),
+    Workload("history", wl_history, quick=120, thorough=20000),
 ]
 
 
